@@ -44,14 +44,16 @@ theorem isInput_true_owned {V : Type} {r : Run V} {x : Nat} (h : r.isInput x = t
 
 /-- **Preservation.** -/
 theorem Sim.step' {V : Type} {ops : Ops V} {r : Run V} {st st' : St V} {i : Nat} {tr : StepTrace}
+    {caps0 : Nat → Option (V × Bool)}
     {total : Nat → Nat} {rest outs : List Nat} {E : Nat → Option V} (hwf : WF r)
-    (h : step ops r st i = .ok (st', tr)) (hs : Sim r total (i :: rest) outs st E)
+    (hcw : CapsWF r caps0)
+    (h : step ops r st i = .ok (st', tr)) (hs : Sim r caps0 total (i :: rest) outs st E)
     {op : OpNode} {taken : List (Nat × V)} {st2 : St V} {byVal : List (Nat × V)} {vs : List V}
     {temps3 : Nat → Option V} {stored released : List Nat}
     (hop : getOp r.g i = some op) (T : TakeFacts ops r st i op taken st2 byVal)
     (hstore : storeOutputs r st2.temps op.outputs vs = (temps3, stored))
     (hrel : releaseLoop r { st2 with temps := temps3 } (opDeps r.g op) = (st', released)) :
-    Sim r total rest outs st' (naiveStore E op.outputs vs) := by
+    Sim r caps0 total rest outs st' (naiveStore E op.outputs vs) := by
   have hrc' : RcInv r.g total rest outs st'.rc := RcInv.step h hs.rcb hs.rc
   have hb2 : RcBounded st2.rc := by rw [T.rc]; exact hs.rcb
   have hst' : (releaseLoop r { st2 with temps := temps3 } (opDeps r.g op)).1 = st' := by
@@ -83,13 +85,18 @@ theorem Sim.step' {V : Type} {ops : Ops V} {r : Run V} {st st' : St V} {i : Nat}
       rw [hr1, uses_cons hop rest outs x hv] at h1
       have := List.count_pos_iff.mpr hmem
       split at h1 <;> omega
-  refine ⟨step_rcBounded ops r st st' i tr h hs.rcb, hrc', ?_, ?_, ?_⟩
-  · intro v
-    have := releaseLoop_caps r { st2 with temps := temps3 } (opDeps r.g op)
+  refine ⟨step_rcBounded ops r st st' i tr h hs.rcb, hrc', ?_, ?_, ?_, ?_⟩
+  · have := releaseLoop_caps r { st2 with temps := temps3 } (opDeps r.g op)
     rw [hst'] at this
     rw [this]
-    show st2.caps v = none
-    rw [T.caps]; exact hs.nocaps v
+    show st2.caps = caps0
+    rw [T.caps]; exact hs.caps
+  · intro v hv
+    have hnot : v ∉ op.outputs.filterMap id := (hcw.kind v hv).2.2 i op hop
+    rw [naiveStore_apply]
+    cases hw : naiveStore (fun _ => none) op.outputs vs v with
+    | some w => exact absurd (naiveStore_none_mem _ _ _ _ hw) hnot
+    | none => exact hs.capE v hv
   · -- agree
     intro x y hx
     have h3 : temps3 x = some y := by
@@ -162,10 +169,12 @@ theorem Sim.step' {V : Type} {ops : Ops V} {r : Run V} {st st' : St V} {i : Nat}
       split at h1 <;> omega
 
 theorem Sim.step {V : Type} {ops : Ops V} {r : Run V} {st st' : St V} {i : Nat} {tr : StepTrace}
+    {caps0 : Nat → Option (V × Bool)}
     {total : Nat → Nat} {rest outs : List Nat} {E : Nat → Option V} (hwf : WF r)
+    (hcw : CapsWF r caps0)
     (h : step ops r st i = .ok (st', tr)) (P : StepParts ops r st st' i tr)
-    (hs : Sim r total (i :: rest) outs st E) :
-    Sim r total rest outs st' (naiveStore E P.op.outputs P.outs) :=
-  Sim.step' hwf h hs P.hop (takeFacts P hs.nocaps) P.hstore P.hrel
+    (hs : Sim r caps0 total (i :: rest) outs st E) :
+    Sim r caps0 total rest outs st' (naiveStore E P.op.outputs P.outs) :=
+  Sim.step' hwf hcw h hs P.hop (takeFacts P (hs.noTake hcw)) P.hstore P.hrel
 
 end RtenVerif.Executor
